@@ -73,6 +73,9 @@ def build(case, kind, j, form):
     rng = f"{a}:{b}" + (f":{c}" if c != "" else "")
     if form == 0:
         return f"{r}[{rng}]"
+    # a parenthesised range literal needs its bounds written out: (nil:nil), not (:)
+    a, b = a or "nil", b or "nil"
+    rng = f"{a}:{b}" + (f":{c}" if c != "" else "")
     if form == 1:
         return f"r := ({rng}); x := {r}; x[r]"
     proto = "Arr" if kind == "arr" else "Str"
